@@ -11,7 +11,7 @@ from vlib.runners import mkdir, write
 
 PID = 'C14'
 TOK = re.compile(r'"(?:_.|[^"\n])*"|[A-Za-z%][A-Za-z0-9_?!]*|\d+|:=|==>|==|=>|\+->|->|\.\.|<<|>=|<=|~=|\S', re.S)
-DEVS = [('2sp', '  '), ('tab', '\t'), ('nl', '\n'), ('nl-indent', '\n      '), ('comment', ' -- c\n'), ('blank', '\n\n'), ('sp-nl-sp', ' \n ')]
+DEVS = [('2sp', '  '), ('tab', '\t'), ('nl', '\n'), ('nl-indent', '\n      '), ('comment', ' -- c\n'), ('blank', '\n\n'), ('sp-nl-sp', ' \n '), ('escaped-nl', ' _\n')]
 
 PILE_PROGS = [
     [(0, 'f(n: MachineInteger): MachineInteger =='), (1, 'n < 2 => 1'), (1, 'n * f(n-1)'),
@@ -23,6 +23,9 @@ PILE_PROGS = [
     [(0, 'h(a: MachineInteger, b: MachineInteger): MachineInteger =='), (1, 'r: MachineInteger := 0'), (1, 'while a > 0 repeat'), (2, 'a := a - 1'),
      (2, 'b = a => iterate'), (2, 'for k in 1..b repeat'), (3, 'k > 3 => break'), (3, 'r := r + k'), (1, 'try'), (2, 'r := r + q(a)'), (1, 'catch E in'),
      (2, 'E has X => r := 0'), (2, 'never'), (1, 'r')],
+    [(0, 'define VC: Category == with'), (1, 'f: % -> %'), (1, 'g: (%, %) -> Boolean'), (1, 'default'), (2, 'g(a: %, b: %): Boolean =='), (3, 'a = b => true'), (3, 'false'),
+     (0, 'k(n: MachineInteger): MachineInteger =='), (1, 'local t: MachineInteger := n'), (1, 'for i in 1..n for j in 2..n repeat'), (2, 't := t + i * j'),
+     (2, 'if t > 100 then'), (3, 'break'), (1, 'select n in'), (2, '1 => t'), (2, '2 => t + 1'), (2, 't + 2')],
 ]
 
 
@@ -39,6 +42,35 @@ def braced_sources(tier):
             picks.append(lst[0])
             picks.append(lst[-1])
     return [progspace.render_case(i, c) for i, c in enumerate(picks)]
+
+
+JOIN = ('else', '==', 'catch', 'finally', 'then', 'always')
+
+
+def braced_twin(prog):
+    """the brace-and-semicolon program with the same explicit block structure as the piled one (#pile wraps the file in
+    one more sequence, which the outer braces reproduce)"""
+    def parse(i, depth):
+        items = []
+        while i < len(prog) and prog[i][0] >= depth:
+            d, t = prog[i]
+            if d > depth:
+                kids, i = parse(i, d)
+                items[-1][1].extend(kids)
+            else:
+                items.append([t, []])
+                i += 1
+        return items, i
+
+    def rend(items):
+        out = ''
+        for k, (t, kids) in enumerate(items):
+            st = t + (' { ' + rend(kids) + ' }' if kids else '')
+            if k > 0:
+                out += ' ' if t.split()[0] in JOIN else '; '
+            out += st
+        return out
+    return '{ ' + rend(parse(0, 0)[0]) + ' }\n'
 
 
 def render_pile(prog, width=4, tab=False, ins=None):
@@ -83,6 +115,10 @@ def main(tier):
         for w in range(1, 9):
             jobs.append((g, 'width%d' % w, render_pile(prog, w)))
         jobs.append((g, 'tabs', render_pile(prog, tab=True)))
+        jobs.append((g, 'braced-twin', braced_twin(prog)))
+        tw = TOK.findall(braced_twin(prog))
+        for name, d in DEVS[:5]:
+            jobs.append((g, 'braced-twin-all-' + name, d.join(tw) + '\n'))
         for i in range(len(prog)):
             d = prog[i][0]
             for name, txt in [('blank', ''), ('blanksp', '      '), ('com0', '-- c'), ('comind', ' ' * (4 * d) + '-- c'), ('comdeep', ' ' * (4 * d + 6) + '-- c'),
